@@ -22,7 +22,11 @@ PolicyStep(pre, ev) ==
   ELSE IF ~AWellFormed(StOf(pre)) THEN TRUE      \* reported where the malformed state was produced
   ELSE /\ ev.obs.p >= 0 /\ ev.obs.p <= Size
        /\ IF ev.op \in SpecOps
-          THEN LET x == AApply(ev, StOf(pre)) IN x.st = StOf(ev.obs) /\ x.ret = ev.ret
+          THEN LET x == AApply(ev, StOf(pre)) IN
+               IF x.st = StOf(ev.obs) /\ x.ret = ev.ret THEN TRUE
+               ELSE IF ev.op = "put"      \* the other admissible ghost-hit order (Adaptive!APutAlt)
+                    THEN LET y == APutAlt(StOf(pre), ev.k, ev.v) IN y.st = StOf(ev.obs) /\ y.ret = ev.ret
+                    ELSE FALSE
           ELSE StOf(ev.obs) = StOf(pre)
 
 \* C16: a clone is observationally identical at the moment of cloning (capacity, every partition in
